@@ -86,8 +86,9 @@ func c03(w *core.World, r *core.Report) {
 	r.Rule("DRYRUN-GUARD", 3, "dry-run discipline, inductive over the call graph from TransactionSet: every call site that can reach an effect (target.Set / cache.Client.Modify) is guarded by dryRun==false, or forwards the dry-run flag into a parameter for which the callee satisfies the same rule. Decides: no call-graph path from a dry-run TransactionSet to an effect escapes a dryRun test.")
 	reach := effectReachers(w)
 	visited := map[string]bool{}
-	var discipline func(f *ssa.Function, p *ssa.Parameter, depth int)
-	discipline = func(f *ssa.Function, p *ssa.Parameter, depth int) {
+	var discipline func(f *ssa.Function, fp *flagParam, depth int)
+	discipline = func(f *ssa.Function, fp *flagParam, depth int) {
+		p := fp.P
 		key := core.FuncKey(f) + "/" + p.Name()
 		if visited[key] || depth > 6 {
 			return
@@ -117,7 +118,7 @@ func c03(w *core.World, r *core.Report) {
 			}
 			site := core.Site(f, "call %s", core.CalleeKey(c))
 			guarded := false
-			core.WithHost(f, func() { guarded = core.GuardedByValue(c, p, false) })
+			core.WithHost(f, func() { guarded = fp.guarded(c, false) })
 			if guarded {
 				r.OK("DRYRUN-GUARD", site, w.InstrPos(c), "guarded by "+p.Name()+"==false")
 				continue
@@ -126,10 +127,22 @@ func c03(w *core.World, r *core.Report) {
 			forwarded := false
 			if callee != nil && !eff {
 				for i, a := range c.Common().Args {
-					if flowsFromParam(a, p) && i < len(callee.Params) {
+					if i >= len(callee.Params) {
+						continue
+					}
+					next := (*flagParam)(nil)
+					if flowsFromParam(a, p) {
+						next = &flagParam{P: callee.Params[i], Dry: fp.Dry}
+					} else if fp.Dry == nil {
+						// the flag is handed on encoded as a typed constant (applyModeFromDryRun(dryRun))
+						if tc := encodesBool(a, p); tc != nil {
+							next = &flagParam{P: callee.Params[i], Dry: tc}
+						}
+					}
+					if next != nil {
 						forwarded = true
 						r.OK("DRYRUN-GUARD", site, w.InstrPos(c), fmt.Sprintf("forwards %s into parameter %s of the callee; callee checked", p.Name(), callee.Params[i].Name()))
-						discipline(callee, callee.Params[i], depth+1)
+						discipline(callee, next, depth+1)
 					}
 				}
 			}
@@ -139,7 +152,7 @@ func c03(w *core.World, r *core.Report) {
 		}
 	}
 	if p := core.Param(txset, "dryRun"); p != nil {
-		discipline(txset, p, 0)
+		discipline(txset, &flagParam{P: p}, 0)
 	} else {
 		w.NoteUnresolved("parameter dryRun of " + kTxSet)
 	}
@@ -440,14 +453,22 @@ func predict(w *core.World, r *core.Report, low *ssa.Function) {
 		}
 	}
 	r.Check(applied, "PREDICT", core.Site(low, "applyIntent source"), w.InstrPos(apply), "the tree built by this pipeline is the one handed to applyIntent")
-	dry := core.Param(low, "dryRun")
+	dryFlag := dryFlagOf(w, low, 0)
 	var dryIf *ssa.If
-	for _, i := range core.Ifs(low) {
-		v, _ := core.StripNot(i.Cond)
-		if v == dry || (dry != nil && core.HasOrigin(v, dry)) {
-			dryIf = i // the flag itself, or the parameter of a phase function it was handed to
+	core.WithHost(low, func() {
+		for _, i := range core.Ifs(low) {
+			if ok, _ := dryFlag.isTest(i.Cond); ok {
+				dryIf = i // the flag itself (or its typed encoding), also as the parameter of a phase function it was handed to
+				continue
+			}
+			// a predicate of the flag's type (mode.isDryRun()) resolved to the comparison it returns
+			for _, a := range core.AtomsOfCond(i.Cond) {
+				if ok, _ := dryFlag.isTest(a.Cond); ok {
+					dryIf = i
+				}
+			}
 		}
-	}
+	})
 	if dryIf == nil {
 		r.Viol("PREDICT", core.Site(low, "dryRun branch"), w.Pos(low.Pos()), "no branch on dryRun in the pipeline")
 		return
